@@ -55,6 +55,11 @@ def one_mutant(pid, mut):
         os.makedirs(os.path.dirname(dst), exist_ok=True)
         with open(dst, 'w', encoding='utf-8') as fh:
             fh.write(new_src)
+        for extra in mut.get('also', []):  # additional new files (e.g. a new migration script)
+            d2 = os.path.join(tmp, 'tree', extra['file'])
+            os.makedirs(os.path.dirname(d2), exist_ok=True)
+            with open(d2, 'w', encoding='utf-8') as fh:
+                fh.write(extra['content'])
         rc, out = run_check(pid, tmp)
         want = mut.get('expect_rule')
         if mut.get('expect') == 'silent':
